@@ -31,6 +31,10 @@ var c06Pkgs = map[string]map[string]string{
 	"usegeom": {"u.go": "package usegeom\n\nimport \"example.com/c06mod/geom\"\n\nfunc Shift(p geom.Point, d uint64) geom.Point {\n\treturn geom.Point{X: p.X + d, Y: p.Y}\n}\n\nfunc GetX(p *geom.Point) uint64 {\n\treturn p.X\n}\n"},
 	"forward": {"a.go": "package forward\n\nfunc Top() uint64 {\n\treturn helperB() + helperA() + helperC()\n}\n", "z.go": "package forward\n\nfunc helperA() uint64 {\n\treturn 1\n}\n\nfunc helperB() uint64 {\n\treturn 2\n}\n\nfunc helperC() uint64 {\n\treturn helperA() + 3\n}\n"},
 	"failing": {"f.go": "package failing\n\nfunc Fine() uint64 {\n\treturn 1\n}\n\nfunc Bad(x uint64) uint64 {\n\tswitch x {\n\tcase 1:\n\t\treturn 1\n\t}\n\treturn 2\n}\n\nfunc AlsoBad(x uint64) uint64 {\n\tdefer func() {}()\n\treturn x\n}\n"},
+	"failmulti": {"a.go": "package failmulti\n\nfunc A1() uint64 {\n\treturn 1\n}\n\nfunc BadA(x uint64) uint64 {\n\tdefer func() {}()\n\treturn x\n}\n",
+		"m.go": "package failmulti\n\nfunc BadM(x uint64) uint64 {\n\tswitch x {\n\tcase 1:\n\t\treturn 1\n\t}\n\treturn 2\n}\n\nfunc M1() uint64 {\n\treturn A1() + 1\n}\n",
+		"q.go": "package failmulti\n\nfunc BadQ(x uint64) uint64 {\n\tvar y uint64 = x\n\tif y > 2 {\n\t\tgoto end\n\t}\n\ty = 100\nend:\n\treturn y\n}\n",
+		"z.go": "package failmulti\n\nfunc BadZ(x uint64) uint64 {\n\tx <<= 3\n\treturn x\n}\n\nfunc Z1() uint64 {\n\treturn M1() + 1\n}\n"},
 	"plain":   {"p.go": "package plain\n\n// Twice doubles\nfunc Twice(x uint64) uint64 {\n\treturn x + x\n}\n"},
 	"usedisk": {"d.go": "package usedisk\n\nimport \"github.com/goose-lang/goose/machine/disk\"\n\nfunc Sz() uint64 {\n\treturn disk.BlockSize\n}\n"},
 	"multi":   {"m1.go": "package multi\n\nfunc M1() uint64 {\n\treturn M2() + 1\n}\n", "m2.go": "package multi\n\nfunc M2() uint64 {\n\treturn 2\n}\n"},
@@ -127,8 +131,25 @@ func C06(c *ev.Ctx) {
 	sort.Strings(names)
 	var evs []map[string]any
 	run := 0
+	orderOf := map[string]string{}   // pattern list -> order of the returned results
+	aloneHash := map[string]string{} // package -> hash of its file when translated alone
 	record := func(pats []string, res []c06Result, err error, what string) bool {
 		run++
+		if err == nil {
+			var ord []string
+			for _, r := range res {
+				ord = append(ord, r.pkg)
+			}
+			k, o := strings.Join(pats, ","), strings.Join(ord, ",")
+			if old, seen := orderOf[k]; seen && old != o {
+				c.Violation("c06.result-order", fmt.Sprintf("TranslatePackages(%v) returned its results in the order [%s] (%s), an earlier run with the same patterns in the order [%s]: the result and error lists depend on the run / the worker schedule", pats, o, what, old), nil)
+				return false
+			}
+			orderOf[k] = o
+			if what == "alone" && len(res) == 1 {
+				aloneHash[res[0].pkg] = res[0].hash
+			}
+		}
 		if err != nil {
 			c.Violation("c06.run-failed", fmt.Sprintf("TranslatePackages(%v) failed (%s): %v", pats, what, err), nil)
 			return false
@@ -209,7 +230,7 @@ func C06(c *ev.Ctx) {
 			c.Report("c06.two-ffi-panic-kills-run", fmt.Sprintf("goose ./plain ./twoffi: the package reaching two FFIs makes the whole run abort (exit %d, plain.v written: %v): one package influences the others\n%s", code, statErr == nil, firstLines(out, 5)), nil)
 		}
 	}
-	cli := c06CLI(c, root, names)
+	cli := c06CLI(c, root, names, aloneHash)
 	c.Set("cli_runs_over_prior_output_states", cli)
 	c.Set("runs", run)
 	c.Set("evaluations", run)
@@ -331,12 +352,12 @@ func raceTranslateChild(args []string) int {
 // c06CLI: the files the command leaves behind are a function of the sources alone, whatever the output directory
 // contained before: absent, identical, a longer file that starts with the new content, a shorter prefix of it,
 // unrelated bytes, or the translation of an earlier version of the same package (with more / fewer declarations).
-func c06CLI(c *ev.Ctx, root string, names []string) int {
+func c06CLI(c *ev.Ctx, root string, names []string, aloneHash map[string]string) int {
 	fresh := filepath.Join(c.Scratch, "c06cli-fresh")
 	_ = os.RemoveAll(fresh)
 	var pats []string
 	for _, p := range names {
-		if p != "failing" {
+		if p != "failing" && p != "failmulti" {
 			pats = append(pats, "./"+p)
 		}
 	}
@@ -356,6 +377,16 @@ func c06CLI(c *ev.Ctx, root string, names []string) int {
 	if len(ref) != len(pats) {
 		c.Inconclusive("expected %d output files, found %d", len(pats), len(ref))
 		return 0
+	}
+	// the file the command writes for a package in a many-package invocation is the file the library renders for that
+	// package alone
+	for rel, b := range ref {
+		pkg := strings.TrimSuffix(filepath.Base(rel), ".v")
+		h := sha256.Sum256(b)
+		if want, ok := aloneHash[pkg]; ok && want != fmt.Sprintf("%x", h[:8]) {
+			c.Violation("c06.cli-differs-from-library", fmt.Sprintf("goose %v: the file written for package %s differs from the translation of that package alone (co-translated packages influence each other's output)", pats, pkg), map[string]string{"got.v": string(b)})
+			return 0
+		}
 	}
 	runs := 0
 	compare := func(out, what string) {
